@@ -106,6 +106,14 @@ func mkPlan(seed int64, index int) plan {
 		}
 	}
 	p.Procs = []int{0, 1, 2, 4}[r.Intn(4)]
+	if index%97 == 5 && p.N > 0 { // a few runs in which one cancelled task needs most of a second (or more) to wind down
+		p.Cancel, p.CancelUs = "at", 2000
+		k := r.Intn(p.N)
+		p.Tasks[k].Respect = true
+		p.Tasks[k].DelayUs = 50000
+		p.Tasks[k].CleanUs = []int{700000, 1300000}[r.Intn(2)]
+		p.SlowScale = 200 // the stragglers of a premature return must still show up in the history
+	}
 	return p
 }
 
